@@ -128,6 +128,26 @@ def alias_history(rng, rx=None):
     ops.append("T dump")
     return ops
 
+def lon_alias_history(rng):
+    """the CPR alias along a parallel: a published aircraft, then reports from one longitude zone (360/NL degrees for the even format, 360/(NL-1)
+    for the odd one - 400 to 700 km at mid latitudes) further east or west at the same latitude. The first new report pairs with the stored one
+    of the other format to a position next to the published one (a small step); the second shows the real place, several hundred km along the
+    parallel and not at all north or south: the jump limit must reject it (seed C13_g measured only the north-south part)."""
+    rx = rng.choice([(39.0, -77.0), (52.3, 4.8), (-33.9, 151.2), (20.0, 179.0)])
+    ops = ["T reset %s %s %s" % (rx[0], rx[1], rng.choice([1500, 2500]))]
+    f = Flight(rng, rng.bits(24), rx, plain=True)
+    f.lat = Fr(rx[0]) + Fr(rng.below(400) - 200, 1000); f.lon = Fr(rx[1]) + Fr(rng.below(400) - 200, 1000)
+    ops += [hexop("T act", f.position(rng, odd=0)), hexop("T act", f.position(rng, odd=1))]
+    nl = cprspec.nl_table(f.lat)
+    first = rng.below(2)                                            # format of the first report from the new place
+    zones = nl - first if nl - first > 0 else 1
+    k = rng.choice([1, 1, 2])
+    f.lon = ((f.lon + rng.choice([-1, 1]) * (k * Fr(360, zones) + Fr(rng.below(40) - 20, 1000)) + 180) % 360) - 180
+    for odd in (first, 1 - first, first):
+        ops.append(hexop("T act", f.position(rng, odd=odd)))
+    ops.append("T dump")
+    return ops
+
 def outbound_history(rng):
     """a published aircraft leaves the configured range in steps far below the jump limit: it starts 6 - 25 km inside the limit and flies
     straight away from the receiver at about 4 km per report (north, south, east or west)"""
